@@ -827,6 +827,24 @@ def r_arb(ctx):
     f = ctx.p.func('dsw.spiderweb.connect_coding_graph')
     sites = [(nd, c) for nd, c, callee, q in ctx.calls()[f.fq] if q and q.endswith('find_cycle')]
     if not sites:
+        # another networkx search (simple_cycles, strongly_connected_components, ...) that is evaluated ONCE while removals follow
+        # it: a removal lowers the out-degree of the predecessors, a branching vertex can become information-free and close a new
+        # cycle, so the search has to be repeated after the removals (a loop that contains both) - a single pass misses those
+        searches = [(nd_, q_) for nd_, c_, callee_, q_ in ctx.calls()[f.fq] if q_ and q_.startswith('networkx.') and
+                    q_.split('.')[-1] in ('simple_cycles', 'strongly_connected_components', 'cycle_basis', 'recursive_simple_cycles',
+                                          'find_cycle', 'condensation', 'kosaraju_strongly_connected_components')]
+        removals = [nd_ for nd_, d_, tg_, v_ in acc_stores(ctx, f) if v_ == ('c', -1)]
+        if searches and removals:
+            repeated = any(L in nd_.loops for s_, _q in searches for L in s_.loops for nd_ in removals)
+            after = any(r_.id in f.reachable_from(s_.id) for s_, _q in searches for r_ in removals)
+            if not repeated and after:
+                run.refute('R-ARB', f, 'pruning-reaches-the-fixed-point', searches[0][0].lineno,
+                           'the information-free cycles are searched once (%s at line %d) and the removals that follow are never '
+                           'followed by another search: removing a vertex lowers the out-degree of its predecessors, a vertex that '
+                           'branched can become information-free and close a NEW cycle of out-degree-1 vertices, which stays in the '
+                           'graph - encode never terminates on it' % (searches[0][1].split('.')[-1], searches[0][0].lineno),
+                           inputs='threshold-1 masks in which a cycle closes only after an earlier cycle and its tail were pruned')
+                return
         run.undecided('R-ARB', f, 'pruning-by-cycle-search', f.node.lineno,
                       'the threshold-1 pruning no longer uses the cycle search this rule decides; whether it still reaches the '
                       'fixed point (a removal can turn a branching vertex into an information-free one) is not decided')
